@@ -48,6 +48,50 @@ Theorem C37_freeze_wait_bounded : forall n ts pre i,
   mx s = MThread i -> mx (step s (AStep i)) = MFree.
 Proof. intros n ts pre i s. exact (freeze_wait_bounded s i (inv_run pre _ (inv_init n ts))). Qed.
 
+(* ---- link between the thread-level model and the count model used for the correspondence ---- *)
+(* a stuck thread cannot move (only a running inner operation can complete) *)
+Theorem C37_stuck_no_move : forall s i t,
+  nth_error (thr s) i = Some t -> stuck s t = true -> t_pc t <> PRun -> step s (AStep i) = s.
+Proof. exact stuck_no_move. Qed.
+
+(* every reachable quiescent, unfrozen state, whatever schedule led to it: all tokens are held by
+   running inner operations and their number is min(pending calls, capacity) *)
+Theorem C37_quiescent_counts : forall n ts sched,
+  let s := run (init n ts) sched in
+  mx s = MFree -> quiescent s = true ->
+  tokens s = running_nonlock s /\ running_nonlock s = Nat.min (pendN s) n.
+Proof.
+  intros n ts sched s Hm Hq.
+  pose proof (quiescent_unfrozen_counts s (inv_run sched _ (inv_init n ts)) Hm Hq) as H.
+  assert (Hc : cap s = n) by (unfold s; rewrite cap_run; reflexivity).
+  rewrite Hc in H. exact H.
+Qed.
+
+(* ... which is exactly what the count model's settle computes from the same number of pending calls *)
+Theorem C37_count_model_agrees : forall n ts sched q,
+  let s := run (init n ts) sched in
+  mx s = MFree -> quiescent s = true ->
+  q_frozen q = false -> q_run q <= n -> q_wait q + q_run q = pendN s ->
+  q_run (settle n q) = running_nonlock s /\ q_wait (settle n q) = pendN s - running_nonlock s.
+Proof.
+  intros n ts sched q s Hm Hq Hf Hr Hp.
+  assert (Hc : cap s = n) by (unfold s; rewrite cap_run; reflexivity).
+  rewrite <- Hc in Hr |- *. exact (count_model_agrees s q (inv_run sched _ (inv_init n ts)) Hm Hq Hf Hr Hp).
+Qed.
+
+(* the pending count only moves with the script's commands: a call passing the handle check
+   (launch) or an inner operation completing (release); every other step, Freeze and Unfreeze keep it *)
+Theorem C37_pending_unchanged : forall s a,
+  (forall i t, a = AStep i -> nth_error (thr s) i = Some t -> t_pc t <> PStart /\ t_pc t <> PRun) ->
+  pendN (step s a) = pendN s.
+Proof. exact pendN_same. Qed.
+
+Theorem C37_settle_run_is_min : forall n q,
+  q_frozen q = false -> q_run q <= n ->
+  q_run (settle n q) = Nat.min (q_wait q + q_run q) n
+  /\ q_wait (settle n q) + q_run (settle n q) = q_wait q + q_run q.
+Proof. exact settle_run_is_min. Qed.
+
 Theorem C37_oracle_sound : forall c,
   check_C37 c = true <->
   limit_ok (c_cap c) (c_obs c) = true /\ lock_ok 0 (c_cmds c) (c_obs c) = true
@@ -70,3 +114,8 @@ Print Assumptions C37_freeze_wait_bounded.
 Print Assumptions C37_oracle_sound.
 Print Assumptions C37_oracle_limit_meaning.
 Print Assumptions C37_model_satisfies_oracle.
+Print Assumptions C37_stuck_no_move.
+Print Assumptions C37_quiescent_counts.
+Print Assumptions C37_count_model_agrees.
+Print Assumptions C37_pending_unchanged.
+Print Assumptions C37_settle_run_is_min.
